@@ -14,6 +14,8 @@
 (*                   payload->error union, variant->enum)                   *)
 (*   arg   s.x = id(v)  (v passed and returned by value)                    *)
 (*   ptr   p := ^mut s.x; p^ = v        cast  s.x = T.(w) (struct cast)     *)
+(*   castw s.x = T.(w), w of a struct / array type whose members are wider *)
+(*         and in another order (member-wise converting cast)              *)
 (*   elem0 / elem1  s.x[k] = v          local x is a local between guards   *)
 (* The property is the frame condition: every byte outside the stored-to    *)
 (* object keeps its value; and value semantics: afterwards the object holds *)
@@ -45,7 +47,12 @@ P17 == AnonStruct(Named(<<I64, I64, U8>>)) P12 == AnonStruct(Named(<<F64, F32>>)
 PN == AnonStruct(Named(<<P9, U8>>))
 E5 == EnumOf(1, <<I32, Void>>)            E9 == EnumOf(2, <<U8, I64>>)
 E10 == EnumOf(3, <<P9, U16, Void>>)       EV == EnumOf(4, <<Void, Void>>)
-MTys == <<U8, U16, I32, I64, F32, F64, Bool,
+(* destinations of member-wise converting casts: the source has the same member names in another
+   order and wider member types (u8 <- u64, i16 <- i64, ?u8 <- ?u64, ?i32 <- ?i64) *)
+Q1 == AnonStruct(Named(<<Opt(U8), U8, I16>>))    Q2 == AnonStruct(Named(<<U8, Opt(U8)>>))
+Q3 == AnonStruct(Named(<<Opt(I32), Opt(U8), U8>>))
+CastWTys == {Q1, Q2, Q3, Arr(3, Opt(U8)), Arr(2, Opt(I32))}
+MTys == <<U8, U16, I32, I64, F32, F64, Bool, Q1, Q2, Q3, Arr(3, Opt(U8)), Arr(2, Opt(I32)),
           P9, P5, P5b, P3, P17, P12, PN,
           Arr(3, U8), Arr(3, U16), Arr(2, P5),
           E5, E9, E10, EV,
@@ -93,14 +100,15 @@ Img(t, sd) ==
       [] t.k = "void" -> <<>>
 
 (* ------------------------------------------------------------------- cases *)
-Kinds == {"copy", "lit", "conv", "arg", "ptr", "cast", "elem0", "elem1", "local"}
+Kinds == {"copy", "lit", "conv", "arg", "ptr", "cast", "castw", "elem0", "elem1", "local"}
 Applies(t, kd) ==
     CASE kd = "conv" -> t.k \in {"enum", "opt", "eu"}
       [] kd = "cast" -> t.k \in {"struct", "anonstruct"}
+      [] kd = "castw" -> t \in CastWTys
       [] OTHER -> TRUE
 Guard == <<201, 202, 203, 204, 205, 206, 207, 208>>
 Cases == {[t |-> t, kind |-> kd, a |-> sa, b |-> sb] :
-            t \in AllTys, kd \in Kinds, sa \in {1}, sb \in {2, 3}} 
+            t \in AllTys, kd \in Kinds, sa \in {1}, sb \in {2, 3, 4, 5}} 
 IsElem(x) == x.kind \in {"elem0", "elem1"}
 XTy(x) == IF IsElem(x) THEN Arr(2, x.t) ELSE x.t
 XSize(x) == MSize(XTy(x))
